@@ -42,14 +42,14 @@ class O:
     """One proof obligation: a harness function of a harness TU, with its bounds."""
     def __init__(self, name, tu, fn, unwind=2, unwindset=None, backend='sat', defs=(), cdefs=(), replace=None,
                  nsw=False, tiers='qt', timeout=None, flags=(), bound='', desc='', no_checks=False,
-                 usingz=False, known=None, object_bits=12, replay_sanitize=False, depth=None, olevel='O0', crosscheck=False, lift=(), expect_from=None, kind='cbmc', allow_globals=(), no_free=False, scan_struct=None, allow_writers=()):
+                 usingz=False, known=None, object_bits=12, replay_sanitize=False, depth=None, olevel='O0', crosscheck=False, lift=(), expect_from=None, kind='cbmc', allow_globals=(), no_free=False, scan_struct=None, allow_writers=(), scan_calls=True):
         self.name = name; self.tu = tu; self.fn = fn; self.unwind = unwind; self.unwindset = unwindset or []
         self.backend = backend if isinstance(backend, (list, tuple)) else [backend]
         self.defs = tuple(defs) + (('USINGZ',) if usingz else ()); self.cdefs = tuple(cdefs)
         self.replace = dict(replace or {}); self.nsw = nsw; self.tiers = tiers
         self.timeout = timeout; self.flags = list(flags); self.bound = bound; self.desc = desc
         self.no_checks = no_checks; self.known = known; self.object_bits = object_bits
-        self.replay_sanitize = replay_sanitize; self.depth = depth; self.olevel = olevel; self.crosscheck = crosscheck; self.lift = tuple(lift); self.expect_from = expect_from; self.kind = kind; self.allow_globals = tuple(allow_globals); self.no_free = no_free; self.scan_struct = scan_struct; self.allow_writers = tuple(allow_writers)
+        self.replay_sanitize = replay_sanitize; self.depth = depth; self.olevel = olevel; self.crosscheck = crosscheck; self.lift = tuple(lift); self.expect_from = expect_from; self.kind = kind; self.allow_globals = tuple(allow_globals); self.no_free = no_free; self.scan_struct = scan_struct; self.allow_writers = tuple(allow_writers); self.scan_calls = scan_calls
     def variant(self):
         h = hashlib.sha1(repr((self.defs, sorted(self.replace.items()), self.nsw, self.olevel, self.lift, self.no_free)).encode()).hexdigest()[:8]
         return '%s-%s' % (os.path.splitext(self.tu)[0], h)
@@ -436,7 +436,7 @@ def run_structscan(o, tier, outdir):
         if re.match(r'store ' + tyre + r' ', s_): writers.setdefault(cur, set()).add('whole-struct store'); continue
         m = re.match(r'(?:%\S+ = )?(?:tail )?call .*@(llvm\.mem(?:cpy|move|set)[^(]*)\(i8\* (?:align \d+ )?(%[-a-zA-Z$._0-9]+)', s_)
         if m and (m.group(2) in fieldptr or m.group(2) in structptr): writers.setdefault(cur, set()).add(m.group(1).split('.')[1] + ' into the struct'); continue
-        if ' call ' in (' ' + s_) or s_.startswith('invoke '):
+        if o.scan_calls and (' call ' in (' ' + s_) or s_.startswith('invoke ')):
             for a in re.findall(r'(%[-a-zA-Z$._0-9]+)(?=[,)])', s_):
                 if a in fieldptr and fieldptr[a] != 0: writers.setdefault(cur, set()).add('address of field %d passed to a call' % fieldptr[a])
     dm = demangle_map(list(writers))
@@ -448,7 +448,7 @@ def run_structscan(o, tier, outdir):
         report.append(e)
         if not allowed: bad.append(e)
     rec = dict(name=o.name, harness=o.fn, tu=o.tu, defs=list(o.defs), bound=o.bound, desc=o.desc, unwind=0, replaced={}, lifted=[], runs=[],
-               witness=dict(backend='irscan', seconds=0, verdict='n/a', reached=len(report) > 0), witness_replay=None,
+               witness=dict(backend='irscan', seconds=0, verdict='n/a', reached=(('%"' + st + '" = type') in text)), witness_replay=None,   # the type exists in the module: the scan looked at something
                verdict='SUCCESS' if not bad else 'FAILURE', nprops=len(report), solver_s=0, seconds=0.0, backend='irscan', symex_steps=0, vccs=len(report),
                scan=report)
     if bad:
